@@ -27,6 +27,8 @@ RULE = (
     'er the pending-set comparison the schedule is drained (next_job_batch '
     '/ complete) and the units handed out are compared with the expected se'
     't. '
+    ' In the store part one catalogue write may fail once (and the recordin'
+    'g is repeated) before the database is reopened. '
 )
 ASSUMPTIONS = [
     'version components are non-negative ints (documented contract)',
